@@ -10,6 +10,7 @@ import (
 	"fmt"
 	"hash/fnv"
 	"io"
+	"regexp"
 	"strconv"
 	"strings"
 	"testing"
@@ -122,7 +123,32 @@ func genC13(rt *rapid.T, tier string) any {
 				v.Parent.removeChild(v)
 			}
 		}
-		c.Trees = append(c.Trees, m.Newick())
+		if rapid.IntRange(0, 5).Draw(rt, "knuckle") == 0 {
+			// an inner node with exactly one child (sampled ancestor, pruned tree, taxonomy) above a drawn node
+			all := m.all()
+			if x := all[r.Intn(len(all))]; x.Parent != nil {
+				p := x.Parent
+				k := &RNode{Parent: p, Children: []*RNode{x}, HasLen: x.HasLen, Len: 0.375}
+				for i, ch := range p.Children {
+					if ch == x {
+						p.Children[i] = k
+					}
+				}
+				x.Parent = k
+			}
+		}
+		text := m.Newick()
+		if rapid.IntRange(0, 5).Draw(rt, "sciupper") == 0 {
+			// branch lengths as Java programs write them: scientific notation with an upper-case exponent
+			text = regexp.MustCompile(`:[0-9]+(\.[0-9]+)?`).ReplaceAllStringFunc(text, func(s string) string {
+				v, err := strconv.ParseFloat(s[1:], 64)
+				if err != nil || v == 0 {
+					return s
+				}
+				return ":" + strconv.FormatFloat(v, 'E', -1, 64)
+			})
+		}
+		c.Trees = append(c.Trees, text)
 	}
 	if rapid.IntRange(0, 3).Draw(rt, "withbad") == 0 {
 		c.Bad = rapid.IntRange(0, ntrees).Draw(rt, "badpos")
